@@ -254,4 +254,18 @@ theorem afterCircuit_cache (cfg : Cfg) (H : Hashes) (s : State) (p : Prompt) (zr
           simp at hcf
           rw [h, hcf.2.1]
 
+/-! ### payloads that cannot be rendered -/
+
+/-- `runP` is `run`, or — rendering fails and the request got as far as the gate — the look-up phase and the two
+    agent calls -/
+theorem runP_cases (cfg : Cfg) (H : Hashes) (s : State) (p : Prompt) (zr yr : RespP) :
+    runP cfg H s p zr yr = run cfg H s p zr.resp yr.resp ∨
+    (renderFails cfg.gate zr yr = true ∧ (∃ ev, (run cfg H s p zr.resp yr.resp).2.kind = .gated ev) ∧
+      runP cfg H s p zr yr = (callAssessor cfg (callExecutor cfg (lookup cfg H s p).1), ⟨.raised, none⟩)) := by
+  unfold runP
+  generalize run cfg H s p zr.resp yr.resp = r
+  simp only
+  cases hk : r.2.kind <;> simp
+  cases hf : renderFails cfg.gate zr yr <;> simp
+
 end Operon.Cffl
